@@ -79,6 +79,8 @@ func init() {
 				Params: core.Params(c03Params{Kind: "directed", Gate: "G7", Workers: 1, Rounds: tierPick(tier, 150, 1500)})})
 			bs = append(bs, core.Batch{Name: "first-start-race", TimeoutS: 600, Race: true,
 				Params: core.Params(c03Params{Kind: "first-start", Workers: 2, Cycles: tierPick(tier, 60, 400)})})
+			bs = append(bs, core.Batch{Name: "api-while-stopping", TimeoutS: 300,
+				Params: core.Params(c03Params{Kind: "api-while-stopping", Workers: 4, Cycles: tierPick(tier, 20, 200)})})
 			bs = append(bs, core.Batch{Name: "listen-and-serve", TimeoutS: 300,
 				Params: core.Params(c03Params{Kind: "listen", Workers: 4, Cycles: tierPick(tier, 12, 60)})})
 			for _, g := range []string{"G1", "G2", "G3-token", "G3-reset", "G3-event", "G3-reply", "G4", "G5", "G6", "G7", "control"} {
@@ -132,6 +134,10 @@ func c03Run(c *core.Ctx, b core.Batch) {
 	}
 	if p.Kind == "multishutdown" {
 		c03MultiShutdown(c, p)
+		return
+	}
+	if p.Kind == "api-while-stopping" {
+		c03APIWhileStopping(c, p)
 		return
 	}
 	if p.Kind == "stress" {
@@ -936,6 +942,93 @@ func c03StartupFault(c *core.Ctx, p c03Params) {
 			return
 		}
 		c.Distinct(fmt.Sprintf("startup-fault/w%d/%d", p.Workers, failNth))
+	}
+}
+
+// c03APIWhileStopping: Shutdown has closed the connection and waits for a callback that is
+// still in flight (and blocked, so it publishes nothing). Every service-level call made
+// in that state - Reset, ResetAll, TokenEvent, TokenEventWithID, TokenReset - is refused
+// as not-started: it cannot take effect any more (the connection is closed), so nothing
+// may be published by it, and it does not panic or block.
+func c03APIWhileStopping(c *core.Ctx, p c03Params) {
+	for cy := 0; cy < p.Cycles; cy++ {
+		workers := []int{1, 2, p.Workers, 32}[cy%4]
+		rg := newRig("svc", func(s *res.Service) {
+			s.SetWorkerCount(workers)
+			s.Handle("m.$id", res.Access(res.AccessGranted), res.GetModel(func(r res.ModelRequest) { r.Model(map[string]int{"a": 1}) }),
+				res.Auth("login", func(r res.AuthRequest) { r.OK(nil) }))
+		})
+		if err := rg.start(); err != nil {
+			c.Inconclusive("start: " + err.Error())
+			return
+		}
+		inside, release := make(chan struct{}), make(chan struct{})
+		if err := rg.S.With("svc.m.1", func(res.Resource) { close(inside); <-release }); err != nil || !waitCh(inside, 10*time.Second) {
+			close(release)
+			c.Inconclusive("in-flight callback did not start")
+			return
+		}
+		sdone := make(chan struct{})
+		go func() { rg.S.Shutdown(); close(sdone) }()
+		closed := false
+		for i := 0; i < 5000 && !closed; i++ {
+			st, _, _, _ := rg.S.VerifState()
+			closed = rg.C.Closes() >= 1 && st != 2
+			if !closed {
+				time.Sleep(time.Millisecond)
+			}
+		}
+		if !closed {
+			close(release)
+			c.Inconclusive("Shutdown did not reach the draining state")
+			return
+		}
+		st, _, _, _ := rg.S.VerifState()
+		what := map[string]interface{}{"scenario": "service-level calls while Shutdown waits for an in-flight callback", "cycle": cy, "workers": workers, "state": st}
+		pos := rg.C.Len()
+		calls := []struct {
+			name string
+			f    func()
+		}{
+			{"Reset", func() { rg.S.Reset([]string{"svc.>"}, []string{"svc.>"}) }},
+			{"ResetAll", func() { rg.S.ResetAll() }},
+			{"TokenEvent", func() { rg.S.TokenEvent("cid1", map[string]string{"user": "x"}) }},
+			{"TokenEventWithID", func() { rg.S.TokenEventWithID("cid1", "tid1", nil) }},
+			{"TokenReset", func() { rg.S.TokenReset("auth.svc.m.1.login", "tid1", "tid2") }},
+		}
+		for k := range calls {
+			call := calls[(k+cy)%len(calls)]
+			var pn interface{}
+			cdone := make(chan struct{})
+			go func() { defer close(cdone); pn = try(call.f) }()
+			c.Eval(1)
+			if !waitCh(cdone, 10*time.Second) {
+				close(release)
+				c.Violation("C03/call-while-stopping-blocks:"+call.name, fmt.Sprintf("%s called while Shutdown was waiting for an in-flight callback did not return within 10 s", call.name), what)
+				return
+			}
+			if pn != nil {
+				c.Violation("C03/panic:"+call.name+":while-stopping", fmt.Sprintf("%s called while Shutdown was waiting for an in-flight callback panicked: %v", call.name, pn), what)
+			}
+			if msgs := rg.C.Since(pos); len(msgs) > 0 {
+				what["published"] = msgs[0].Subject
+				c.Violation("C03/call-while-stopping-published:"+call.name, fmt.Sprintf("%s called after Shutdown had closed the connection (state %d) was not refused as not-started: it published %s on the closed connection", call.name, st, msgs[0].Subject), what)
+				pos = rg.C.Len()
+			}
+		}
+		c.Obs("api_calls_while_stopping", int64(len(calls)))
+		c.Distinct(fmt.Sprintf("api-while-stopping/w%d/%d", workers, cy%5))
+		close(release)
+		if !waitCh(sdone, 20*time.Second) {
+			c.Violation("C03/shutdown-did-not-return:api-while-stopping", "Shutdown did not return within 20 s after the in-flight callback had finished", what)
+			return
+		}
+		select {
+		case <-rg.serveRet:
+		case <-time.After(20 * time.Second):
+			c.Violation("C03/serve-did-not-return:api-while-stopping", "Serve did not return within 20 s after Shutdown", what)
+			return
+		}
 	}
 }
 
